@@ -24,10 +24,10 @@ impl Binder {
         // check duplicated column names
         let mut set = HashSet::new();
         for col in &columns {
-            if !set.insert(col.name.value.to_lowercase()) {
-                return Err(
-                    ErrorKind::ColumnExists(col.name.value.to_lowercase()).with_spanned(col)
-                );
+            let col_name = col.name.value.to_lowercase();
+            // every table and view has an implicit `_rowid_` column
+            if col_name == "_rowid_" || !set.insert(col_name.clone()) {
+                return Err(ErrorKind::ColumnExists(col_name).with_spanned(col));
             }
         }
 
